@@ -97,7 +97,7 @@ func runSpec(spec *Spec) *Result {
 				}
 			}
 		}
-		simrt.RunTasks(fns, spec.Preempt)
+		simrt.RunTasks(fns, spec.Preempt, spec.PreemptW)
 	}
 	for _, rn := range runners {
 		res.Ops = append(res.Ops, rn.out...)
@@ -110,6 +110,8 @@ func runSpec(spec *Spec) *Result {
 	res.Unregistered = simrt.Unregistered
 	res.Switches = simrt.Switches
 	res.LockOps = simrt.LockOps
+	res.GWrites = simrt.GWrites
+	res.GWTotal = simrt.GWTotal
 	for _, h := range simrt.Hit {
 		if h != 0 {
 			res.FuncsHit++
